@@ -36,7 +36,7 @@ ALL_INV = ["RoundTripKeys", "CompressDeterministic", "DictsBijective", "SigmaIsN
 # ------------------------------------------------------------------- MC ---
 
 def model_check(ck, tier):
-    cfgs = [("CompressMC.cfg", {"init": "empty", "rows": 2, "extra witnesses": 2, "wires": "all 4-tuples", "selector tuples": 3}),
+    cfgs = [("CompressMC.cfg", {"init": "empty", "rows": 2, "extra witnesses": 2, "wires": "all 4-tuples", "selector tuples": 2}),
             ("CompressMC_init.cfg", {"init": "Composer::initialized()", "rows": "4+1", "extra witnesses": 1, "wires": "a,b free", "selector tuples": 5})]
     if tier == "thorough":
         cfgs += [("CompressMC_T1.cfg", {"init": "empty", "rows": 2, "extra witnesses": 3, "wires": "a,b,c free", "selector tuples": 3}),
